@@ -60,8 +60,10 @@ CONFIGS = {
     "2xrun": [
         # (a1 changes its tags once more between its outcome and stopTest: local to a1, and too late
         # to be forwarded; a2 reports a second outcome - an error on top of its failure - which is a
-        # block of its own with a2's start time and tags)
-        [("startTestRun",), ("test", "a1", "addSuccess", None, ("late",)), ("test", "a2", "addFailure", ("x",), None, "addError")],
+        # block of its own with a2's start time and tags; a3 is an outcome reported without startTest and
+        # stopTest - what unittest does for a failing setUpClass - which has no start time and no test-local
+        # tags of its own, and certainly not a2's)
+        [("startTestRun",), ("test", "a1", "addSuccess", None, ("late",)), ("test", "a2", "addFailure", ("x",), None, "addError"), ("lone", "a3", "addError", "a2")],
         [("startTestRun",), ("gtags", ("g",), ()), ("test", "b1", "addSkip", None), ("gtags", (), ("g",)), ("test", "b2", "addSuccess", None)],
     ],
     # explicit times that repeat: a test whose start and end coincide, a test starting at the very
@@ -209,6 +211,9 @@ def execute(config, chooser, faults=True, make_forwarder=None):
                 if late:
                     call((tid, "tags"), tfr.tags, set(late), set())
                 call((tid, "stopTest"), tfr.stopTest, t)
+            elif op == "lone":
+                t = PlaceHolder(step[1])
+                call((step[1], step[2]), getattr(tfr, step[2]), t, **OUTCOME_ARGS[step[2]]())
             elif op == "gtags":
                 call(("gtags",), tfr.tags, set(step[1]), set(step[2]))
             elif op == "shouldStop":
@@ -269,6 +274,13 @@ def check_execution(config, sched, sem, target, seen_exc):
                 groups.append(("block", expected_block(g, step)))
                 if len(step) > 5:
                     groups.append(("block", expected_block(g, step[:2] + (step[5],) + step[3:4])))
+            elif step[0] == "lone":
+                # no start time of its own (time(None)); "now" is the clock as its reporter last set it
+                block = [("time", (None,)), ("startTest", (step[1],)), ("time", (TEST_TIMES[step[3]][1],))]
+                if g[0] or g[1]:
+                    block.append(("tags", (tuple(sorted(g[0])), tuple(sorted(g[1])))))
+                block += [(step[2], (step[1],)), ("stopTest", (step[1],))]
+                groups.append(("block", block))
             elif step[0] == "gtags":
                 new, gone = set(step[1]), set(step[2])
                 g = ((g[0] | new) - gone, (g[1] | gone) - new)
